@@ -208,6 +208,30 @@ def r3(ctx):
                 n += 1
                 ctx.check('unstable' not in last and last in ('sort_by_key', 'sort_by', 'sort', 'reverse', 'sort_by_cached_key'), rule, '%s|%s' % (fn, last), c.where(), 'stable %s' % last, 'unstable or unknown sort %s: ties lose the order established by lower priorities' % last)
     ctx.floor(rule, 'sort/reverse calls in sort_by_priority + try_sort_by_key', n, 4)
+    # a reversal combined with a sort of the same application is not a stable descending sort: ties come out
+    # in reverse input order.  `reverse()` is only legitimate on its own (Priority::Top).
+    from ..callgraph import CallGraph
+    cg = CallGraph([lib])
+    helpers = [k for k in cg.reachable(['dedupe::sort_by_priority']) if cg.bodies[k].file.endswith(('dedupe.rs', 'util.rs'))]
+
+    def sorts(c):
+        last = c.f.get('method') or c.path.rsplit('::', 1)[-1]
+        if not c.f.get('local') and 'sort' in last:
+            return True
+        t = cg.target_of(c)
+        if t and t in helpers and t != c.body.path:
+            return any(sorts(x) for x in cg.bodies[t].calls())
+        if t and t == 'dedupe::sort_by_priority':
+            return True
+        return False
+    for k in helpers:
+        hb = cg.bodies[k]
+        revs = [c for c in hb.calls(r'slice::<impl \[T\]>::reverse$|::reverse$') if not c.f.get('local')]
+        srt = [c for c in hb.calls() if sorts(c)]
+        for r in revs:
+            clash = [x for x in srt if x.bb in hb.reachable(r.bb) or r.bb in hb.reachable(x.bb)]
+            ctx.check(not clash, rule, '%s|reverse-with-sort' % k, r.where(), 'reverse() stands alone (no sort of the same slice on its path)',
+                      'reverse() is combined with %s on the same path: among replicas with equal keys the order established by the other priorities (and the report order) is inverted, so a different replica is kept' % (clash[0].path.rsplit('::', 1)[-1] if clash else ''))
 
 
 def r4(ctx):
